@@ -13,7 +13,7 @@ func TestHonest(t *testing.T) {
 	var cases []Case
 	for _, rpc := range []string{"ReadSector", "WriteSector", "VerifySector", "SectorRoots", "AppendSectors", "FreeSectors", "FundAccounts", "ReplenishAccounts", "ReplenishPools", "LatestRevision", "AccountBalance", "FormContract", "RenewContract", "RefreshFull", "RefreshPartial"} {
 		for v := 0; v < 4; v++ {
-			cases = append(cases, Case{RPC: rpc, Variant: v, Must: "ok", Info: rpc == "LatestRevision" || rpc == "AccountBalance"})
+			cases = append(cases, Case{RPC: rpc, Variant: v, SameKey: v%2 == 0 || rpc == "ReadSector" || rpc == "WriteSector" || rpc == "VerifySector", Must: "ok", Info: rpc == "LatestRevision" || rpc == "AccountBalance"})
 		}
 	}
 	runCases(t, replayIn{Cases: cases}, res, nil)
